@@ -236,3 +236,35 @@ fn as_variable_id(
     }
     Ok(id)
 }
+
+/// Read-only view of the validated instance for the conformance harness in /verif
+/// (compiled only with `--cfg ommx_verif`).
+#[cfg(ommx_verif)]
+#[allow(clippy::type_complexity)]
+impl Instance {
+    pub fn verif_view(
+        &self,
+    ) -> (
+        &Sense,
+        &Function,
+        &HashMap<VariableID, DecisionVariable>,
+        &HashMap<ConstraintID, Constraint>,
+        &HashMap<ConstraintID, RemovedConstraint>,
+        &HashMap<VariableID, Function>,
+        &Option<v1::Parameters>,
+        &Option<v1::instance::Description>,
+        &ConstraintHints,
+    ) {
+        (
+            &self.sense,
+            &self.objective,
+            &self.decision_variables,
+            &self.constraints,
+            &self.removed_constraints,
+            &self.decision_variable_dependency,
+            &self.parameters,
+            &self.description,
+            &self.constraint_hints,
+        )
+    }
+}
